@@ -9,6 +9,7 @@ from checks import c14
 from checks import c05
 from checks import c20
 from checks import c18
+from checks import c19
 from checks import c15
 
 
@@ -34,6 +35,7 @@ CHECKS = {
     "C13": c13.run,
     "C14": c14.run,
     "C15": c15.run,
+    "C19": c19.run,
     "C20": c20.run,
     "C18": c18.run,
     "C01": c01.run,
